@@ -51,6 +51,9 @@ class StoreEngine(Engine):
         for o in obs:
             if o.get('crash'):
                 fired['crash'] = fired.get('crash', 0) + 1
+                at = o.get('at') or []
+                if len(at) > 2 and at[2] in ('after', 'interrupt'):
+                    fired['crash_' + at[2]] = fired.get('crash_' + at[2], 0) + 1
                 if o.get('torn'):
                     fired['torn_write'] = fired.get('torn_write', 0) + 1
             for f in o.get('fired', []):
@@ -108,7 +111,7 @@ class StoreEngine(Engine):
             for oi, op in enumerate(procs[pi]['ops']):
                 if op.get('crash'):
                     cr = op['crash']
-                    if cr.get('when') == 'after':
+                    if cr.get('when') in ('after', 'interrupt'):
                         c = copy.deepcopy(scn)
                         c['procs'][pi]['ops'][oi]['crash'].pop('when')
                         yield c
